@@ -91,7 +91,9 @@ def run_walk(case):
 
     def counting_choice(seq):
         calls[0] += 1
-        if calls[0] > GUARD:
+        if calls[0] > GUARD or len(seq) == 0:
+            # the search for an initial value does not end, or it is stuck in a state without any proposal:
+            # there is no initial value to start a walk from (the property speaks about walks from one)
             raise Inconclusive()
         return orig_choice(seq)
 
@@ -128,7 +130,8 @@ def run_walk(case):
         bounded = not case["allow_unmet"] or all_ok(before, eff)
         check_value(new, h, w, eff, "after-" + k, check_bounds=bounded)
         # the other candidates of the same list still apply to the unchanged value
-        for j in (0, len(cands) // 2, len(cands) - 1):
+        # (all of them at the first step, where the walk stands on the drawn target; three of them later)
+        for j in (range(len(cands)) if step == 0 else (0, len(cands) // 2, len(cands) - 1)):
             other = b.copy_with_update(cur, cands[j])
             check_value(other, h, w, eff, "sibling-" + kind_of(cands[j]), check_bounds=bounded)
         if cur != before:
@@ -158,8 +161,22 @@ def strategy(max_side):
     def c(draw):
         h = draw(st.one_of(st.integers(1, max_side), st.integers(2, max_side), st.integers(3, max_side)))
         w = draw(st.one_of(st.integers(1, max_side), st.integers(2, max_side), st.integers(3, max_side)))
-        from puzzles.base import draw_rooms
+        from puzzles.base import components, draw_rooms
         rooms, _ = draw_rooms(draw, st, h, w, (1, 1, 2, 4))
+        if h >= 3 and w >= 3 and draw(st.integers(0, 3)) == 0:
+            # a block with a hole: the ring around a cell that is a block of its own, with a tail hanging on
+            # one ring cell (blocks that enclose other blocks are what a walk rarely reaches by itself)
+            cy, cx = draw(st.integers(1, h - 2)), draw(st.integers(1, w - 2))
+            ring = [(cy + dy, cx + dx) for dy in (-1, 0, 1) for dx in (-1, 0, 1) if (dy, dx) != (0, 0)]
+            outside = sorted({(y + dy, x + dx) for (y, x) in ring for dy, dx in ((-1, 0), (1, 0), (0, -1), (0, 1))
+                              if 0 <= y + dy < h and 0 <= x + dx < w} - set(ring) - {(cy, cx)})
+            tail = []
+            for _ in range(draw(st.integers(0, 2))):
+                if outside:
+                    tail.append(outside.pop(draw(st.integers(0, len(outside) - 1))))
+            block = ring + tail
+            rest = {(y, x) for y in range(h) for x in range(w)} - set(block) - {(cy, cx)}
+            rooms = [block, [(cy, cx)]] + [sorted(c) for c in sorted(components(rest), key=min)]
         target = [[list(c) for c in r] for r in rooms]
         n = len(target)
         sizes = [len(b) for b in target]
@@ -219,7 +236,9 @@ def run(ctx):
     ctx.assumptions = [
         "bounds are not asserted on values produced while allow_unmet_constraints_first is in effect and the "
         "current value is itself out of bounds",
-        "initial() runs under a guard of %d random.choice calls; a guard hit is inconclusive, not a failure" % GUARD,
+        "initial() runs under a guard of %d random.choice calls; a guard hit, or a search state without any "
+        "proposal (choice from an empty list), is inconclusive, not a failure: the property starts from an "
+        "initial value" % GUARD,
     ]
     k, n, side = (16, 500, 5) if ctx.quick() else (16, 3000, 7)
     for r in pmap(shard, [(ctx.seed * 1000 + i, n, side) for i in range(k)]):
